@@ -208,38 +208,77 @@ func OracleC07(c Case, obs []StepObs) []Finding {
 		if prev != 'E' && o.State == 'E' && (own > 0 || len(o.AdjIn) > 0) {
 			add("re-established-with-stale-routes", where+" Loc-RIB="+strings.Join(o.Loc, ","))
 		}
-		// accounting over all sessions, read from o.All (state letter + attached flag per session)
-		att4, att6, attAny := 0, 0, 0
+		// accounting over all sessions, read from o.All (state letter + attached flag per session):
+		// a session's ASN / cluster id is contributing exactly while some Established session contributes it
+		att4, att6 := 0, 0
+		est := func(k int) bool { return 2*k+1 < len(o.All) && o.All[2*k] == 'E' }
 		for k := range c.Sess {
-			if 2*k+1 < len(o.All) && o.All[2*k] == 'E' {
-				attAny++
+			if est(k) {
 				if c.Sess[k].V4 {
 					att4++
 				}
 				if c.Sess[k].V6 {
 					att6++
 				}
-				if c.Sess[k].RR && k < len(o.CIDRef) && o.CIDRef[k] != '1' {
-					add("cluster-id-contribution-missing-while-established", where)
+			}
+			wantASN, wantCID := false, false
+			for k2 := range c.Sess {
+				if est(k2) && c.Sess[k2].LAS == c.Sess[k].LAS {
+					wantASN = true
 				}
-			} else if c.Sess[k].RR && k < len(o.CIDRef) && o.CIDRef[k] == '1' {
-				// another established RR session may legitimately hold the same cluster id
-				shared := false
-				for k2 := range c.Sess {
-					if k2 != k && c.Sess[k2].RR && clusterOf(c.Sess[k2]) == clusterOf(c.Sess[k]) && 2*k2 < len(o.All) && o.All[2*k2] == 'E' {
-						shared = true
-					}
+				if est(k2) && c.Sess[k2].RR && clusterOf(c.Sess[k2]) == clusterOf(c.Sess[k]) {
+					wantCID = true
 				}
-				if !shared {
-					add("cluster-id-contribution-left-after-"+cls, where)
+			}
+			if k < len(o.ASNRef) {
+				got := o.ASNRef[k] == '1'
+				if got && !wantASN {
+					add("asn-contribution-left-after-"+cls, where+fmt.Sprintf(" (AS %d)", c.Sess[k].LAS))
+				}
+				if !got && wantASN {
+					add("asn-contribution-of-an-established-session-released-after-"+cls, where+fmt.Sprintf(" (AS %d)", c.Sess[k].LAS))
+				}
+			}
+			if k < len(o.CIDRef) {
+				got := o.CIDRef[k] == '1'
+				if got && !wantCID {
+					add("cluster-id-contribution-left-after-"+cls, where+fmt.Sprintf(" (cluster id %d)", clusterOf(c.Sess[k])))
+				}
+				if !got && wantCID {
+					add("cluster-id-contribution-of-an-established-session-released-after-"+cls, where+fmt.Sprintf(" (cluster id %d)", clusterOf(c.Sess[k])))
 				}
 			}
 		}
-		if attAny == 0 && o.ASNRef {
-			add("asn-contribution-left-after-"+cls, where)
-		}
-		if attAny > 0 && !o.ASNRef {
-			add("asn-contribution-of-another-session-released-after-"+cls, where)
+		// loop detection behaviour: a path carrying a contributing ASN / cluster id must not be installed
+		if e.Kind == "m" && e.M.Kind == 'P' && prev == 'E' && o.State == 'E' {
+			hidden := false
+			for k2 := range c.Sess {
+				if !est(k2) {
+					continue
+				}
+				if e.M.ByASN && c.Sess[k2].LAS == e.M.Val {
+					hidden = true
+				}
+				if !e.M.ByASN && c.Sess[k2].RR && clusterOf(c.Sess[k2]) == e.M.Val {
+					hidden = true
+				}
+			}
+			installed := false
+			for _, l := range o.Loc {
+				if l == fmt.Sprintf("%d:%d", e.Sid, e.M.RID) || l == fmt.Sprintf("%d:%d*", e.Sid, e.M.RID) {
+					installed = true
+				}
+			}
+			what := "cluster-id"
+			if e.M.ByASN {
+				what = "asn"
+			}
+			if hidden && installed {
+				add("path-with-contributing-"+what+"-installed", where)
+			}
+			if !hidden && !installed && c.Sess[e.Sid].Imp != 'D' && c.Sess[e.Sid].V4 {
+				add("path-with-non-contributing-"+what+"-not-installed", where)
+			}
 		}
 		if int(o.Clients4) != att4 || int(o.Clients6) != att6 {
 			add("adj-rib-out-registration-wrong-after-"+cls, where+fmt.Sprintf(" registered=%d.%d established=%d.%d", o.Clients4, o.Clients6, att4, att6))
@@ -481,8 +520,10 @@ func openClauses(m Msg, c SessCfg) (viol []string, names []string) {
 	return viol, names
 }
 
-func expectedNeg(m Msg, c SessCfg) string {
-	h := c.Hold
+// expectedNeg: every option is on iff the OPEN the speaker really wrote (ours = the capability tokens decoded
+// from its bytes, ourHold its hold time) AND the peer's OPEN advertise it.
+func expectedNeg(m Msg, c SessCfg, ours []string, ourHold int) string {
+	h := ourHold
 	if m.Hold < h {
 		h = m.Hold
 	}
@@ -511,9 +552,22 @@ func expectedNeg(m Msg, c SessCfg) string {
 			}
 		}
 	}
-	return fmt.Sprintf("h%dk%dt%sa%sx%s%s%s%s%s%sr%s%d", h, ka, b01(h != 0), b01(asn4),
-		b01(c.V4 && c.APR4 && apSend(1)), b01(c.V4 && c.APS4 && apRecv(1)), b01(c.V4 && c.MP4 && mp(1)),
-		b01(c.V6 && c.APR6 && apSend(2)), b01(c.V6 && c.APS6 && apRecv(2)), b01(c.V6 && mp(2)), b01(adv), remote)
+	we := func(pfx string, vals ...string) bool {
+		for _, x := range ours {
+			for _, v := range vals {
+				if x == pfx+v {
+					return true
+				}
+			}
+			if len(vals) == 0 && strings.HasPrefix(x, pfx) {
+				return true
+			}
+		}
+		return false
+	}
+	return fmt.Sprintf("h%dk%dt%sa%sx%s%s%s%s%s%sr%s%d", h, ka, b01(h != 0), b01(we("a") && asn4),
+		b01(we("p1.1.", "1", "3") && apSend(1)), b01(we("p1.1.", "2", "3") && apRecv(1)), b01(we("m1.1", "") && mp(1)),
+		b01(we("p2.1.", "1", "3") && apSend(2)), b01(we("p2.1.", "2", "3") && apRecv(2)), b01(we("m2.1", "") && mp(2)), b01(adv), remote)
 }
 
 func expectedSentOpen(c SessCfg) string {
@@ -541,6 +595,9 @@ func expectedSentOpen(c SessCfg) string {
 		ap(c.APR6, c.APS6, 2)
 	}
 	caps = append(caps, fmt.Sprintf("a%d", c.LAS))
+	if c.V4 && c.NX4 {
+		caps = append(caps, "x1.1.2", "m1.1")
+	}
 	if c.V4 && c.MP4 {
 		caps = append(caps, "m1.1")
 	}
@@ -569,6 +626,8 @@ func OracleC22(c Case, obs []StepObs) []Finding {
 	broken := make([]bool, len(c.Sess))
 	connOpen := make([]bool, len(c.Sess))
 	lastValid := make([]bool, len(c.Sess))
+	ourCaps := make([][]string, len(c.Sess))
+	ourHold := make([]int, len(c.Sess))
 	walk(c, obs, func(i int, e Event, prev byte, prevAtt bool, o StepObs, po *StepObs) {
 		if o.Panic != "" || o.Wedged != "" {
 			return
@@ -587,8 +646,18 @@ func OracleC22(c Case, obs []StepObs) []Finding {
 		connOpen[e.Sid] = o.Conn == 'o'
 		// the OPEN we send
 		for _, x := range o.Outs {
-			if strings.HasPrefix(x, "O") && x != expectedSentOpen(cfg) {
-				add("sent-open-differs-from-configuration", where+" expected="+expectedSentOpen(cfg))
+			if strings.HasPrefix(x, "O") {
+				if x != expectedSentOpen(cfg) {
+					add("sent-open-differs-from-configuration", where+" expected="+expectedSentOpen(cfg))
+				}
+				// what we really advertised: decoded from the bytes on the wire
+				if f := strings.SplitN(x[1:], ".", 4); len(f) == 4 {
+					fmt.Sscanf(f[1], "%d", &ourHold[e.Sid])
+					ourCaps[e.Sid] = nil
+					if f[3] != "-" {
+						ourCaps[e.Sid] = strings.Split(f[3], "+")
+					}
+				}
 			}
 		}
 		if prev != 'E' && o.State == 'E' && !lastValid[e.Sid] {
@@ -610,7 +679,7 @@ func OracleC22(c Case, obs []StepObs) []Finding {
 			if len(o.Outs) != 1 || o.Outs[0] != "K" {
 				add("valid-open-not-answered-with-keepalive-only", where)
 			}
-			if want := expectedNeg(e.M, cfg); want != o.Neg {
+			if want := expectedNeg(e.M, cfg, ourCaps[e.Sid], ourHold[e.Sid]); want != o.Neg {
 				field := "options"
 				if want[:strings.IndexByte(want, 'k')] != o.Neg[:strings.IndexByte(o.Neg, 'k')] {
 					field = "hold-time"
